@@ -114,14 +114,14 @@ theorem sat_cond_of_lit {γ : Value → Value} [Completion γ] {env : Env} {w : 
 /-- the condition loop of `PartialPolicy` when no condition reports `errIgnore` -/
 theorem partialConds_sound {γ : Value → Value} [Completion γ] {envH env : Env} (C : CompletesVia γ envH env) (effect : Effect) :
     ∀ conds : List (Bool × Expr),
-      (conds.all fun c => (partialE envH c.2).notIgn) = true →
+      (conds.all fun c => (partialE envH c.2).notIgn && c.2.recKeysDistinct) = true →
       CondsAgree env conds (partialConds envH effect conds)
   | [], _ => by simp [partialConds, CondsAgree]
   | (w, body) :: rest, h => by
     simp only [List.all_cons, Bool.and_eq_true] at h
-    obtain ⟨hni, hrest⟩ := h
-    have ih := partialConds_sound C effect rest hrest
-    have hs := partialE_sound C body
+    obtain ⟨⟨hni, hkd⟩, hrest⟩ := h
+    have ih := partialConds_sound C effect rest (by simpa only [Bool.and_eq_true] using hrest)
+    have hs := partialE_sound C body hkd
     simp only [partialConds]
     cases hp : partialE envH body with
     | var s => exact cons_agree rfl ih
@@ -385,11 +385,13 @@ theorem drop_widen {env : Env} {c : Bool × Expr} {conds : List (Bool × Expr)} 
     intro h; exact ih h.2
 
 theorem partialConds_widen {γ : Value → Value} [Completion γ] {envH env : Env} (C : CompletesVia γ envH env) :
-    ∀ conds : List (Bool × Expr), CondsWiden env conds (partialConds envH .permit conds)
-  | [] => by simp [partialConds, CondsWiden]
-  | (w, body) :: rest => by
-    have ih := partialConds_widen C rest
-    have hs := partialE_sound C body
+    ∀ conds : List (Bool × Expr), (conds.all fun c => c.2.recKeysDistinct) = true →
+      CondsWiden env conds (partialConds envH .permit conds)
+  | [], _ => by simp [partialConds, CondsWiden]
+  | (w, body) :: rest, hkd => by
+    simp only [List.all_cons, Bool.and_eq_true] at hkd
+    have ih := partialConds_widen C rest hkd.2
+    have hs := partialE_sound C body hkd.1
     simp only [partialConds]
     cases hp : partialE envH body with
     | var s => exact cons_widen id ih
@@ -448,13 +450,13 @@ theorem partialScope_widen (σ : String → Value) (ι : Var → Value) (envH : 
     intro _; rfl
 
 theorem partialPolicy_widen (σ : String → Value) (ι : Var → Value) (envH : Env) (p : Policy)
-    (hperm : p.effect = .permit)
+    (hkd : p.recKeysDistinct = true) (hperm : p.effect = .permit)
     (hsat : satisfied p (completeEnvI σ ι envH) = true) :
     ∃ r, partialPolicy envH p = some r ∧ satisfied r (completeEnvI σ ι envH) = true := by
   have h1 := partialScope_widen σ ι envH .principal p.principal
   have h2 := partialScope_widen σ ι envH .action p.action
   have h3 := partialScope_widen σ ι envH .resource p.resource
-  have h4 := partialConds_widen (completesVia_ignore σ ι envH) p.conditions
+  have h4 := partialConds_widen (completesVia_ignore σ ι envH) p.conditions hkd
   simp only [envPart] at h1 h2 h3
   rw [satisfied_eq] at hsat
   simp only [Bool.and_eq_true] at hsat
